@@ -179,23 +179,16 @@ pub fn collect_sources<FS: FileSystem>(
 pub struct IncludeId(pub SyntaxNodePtr);
 
 fn list_includes(root_node: SyntaxNode) -> Vec<(IncludeId, EcoString)> {
-    (|| -> Option<_> {
-        let source_file = ast::SourceFile::cast(root_node)?;
-        let stmt_list = source_file.statement_list()?;
-        let include_paths = stmt_list
-            .statements()
-            .filter_map(|stmt| match stmt {
-                ast::Statement::Include(include) => {
-                    let id = IncludeId(SyntaxNodePtr::new(include.syntax()));
-                    let path = include.path()?.value();
-                    Some((id, path))
-                }
-                _ => None,
-            })
-            .collect();
-        Some(include_paths)
-    })()
-    .unwrap_or_default()
+    // include statements may be nested in blocks (`let ... in { include "x.td" }`)
+    root_node
+        .descendants()
+        .filter_map(ast::Include::cast)
+        .filter_map(|include| {
+            let id = IncludeId(SyntaxNodePtr::new(include.syntax()));
+            let path = include.path()?.value();
+            Some((id, path))
+        })
+        .collect()
 }
 
 fn resolve_include_file<FS: FileSystem>(
